@@ -56,33 +56,33 @@ fn halves() {
     if want("C16") {
         let mut rng = Rng::for_label("C16/kuznyechik/family");
         let keys: Vec<Vec<u8>> = (0..8).map(|_| rng.plain(32)).collect();
-        let key = |k: &[u8]| Key::<Kuznyechik>::try_from(k).unwrap();
+        
         scope("kuznyechik", "Kuznyechik");
         set_prop("C16");
         c16_core::<Kuznyechik>(
             &[
-                ("from(enc)", &|k| Some(Kuznyechik::from(KuznyechikEnc::new(&key(k))))),
-                ("from(&enc)", &|k| Some(Kuznyechik::from(&KuznyechikEnc::new(&key(k))))),
-                ("from(&enc).clone()", &|k| Some(Kuznyechik::from(&KuznyechikEnc::new(&key(k))).clone())),
-                ("new", &|k| Some(Kuznyechik::new(&key(k)))),
+                ("from(enc)", &|k| Some(Kuznyechik::from(KuznyechikEnc::new(kref::<Kuznyechik>(k))))),
+                ("from(&enc)", &|k| Some(Kuznyechik::from(&KuznyechikEnc::new(kref::<Kuznyechik>(k))))),
+                ("from(&enc).clone()", &|k| Some(Kuznyechik::from(&KuznyechikEnc::new(kref::<Kuznyechik>(k))).clone())),
+                ("new", &|k| Some(Kuznyechik::new(kref::<Kuznyechik>(k)))),
             ],
             &keys,
         );
         scope("kuznyechik", "KuznyechikEnc");
         set_prop("C16");
         c16_core::<KuznyechikEnc>(
-            &[("new", &|k| Some(KuznyechikEnc::new(&key(k)))), ("clone", &|k| Some(KuznyechikEnc::new(&key(k)).clone()))],
+            &[("new", &|k| Some(KuznyechikEnc::new(kref::<Kuznyechik>(k)))), ("clone", &|k| Some(KuznyechikEnc::new(kref::<Kuznyechik>(k)).clone()))],
             &keys,
         );
         scope("kuznyechik", "KuznyechikDec");
         set_prop("C16");
         c16_core::<KuznyechikDec>(
             &[
-                ("new", &|k| Some(KuznyechikDec::new(&key(k)))),
-                ("clone", &|k| Some(KuznyechikDec::new(&key(k)).clone())),
-                ("from(enc)", &|k| Some(KuznyechikDec::from(KuznyechikEnc::new(&key(k))))),
-                ("from(&enc)", &|k| Some(KuznyechikDec::from(&KuznyechikEnc::new(&key(k))))),
-                ("from(&enc).clone()", &|k| Some(KuznyechikDec::from(&KuznyechikEnc::new(&key(k))).clone())),
+                ("new", &|k| Some(KuznyechikDec::new(kref::<Kuznyechik>(k)))),
+                ("clone", &|k| Some(KuznyechikDec::new(kref::<Kuznyechik>(k)).clone())),
+                ("from(enc)", &|k| Some(KuznyechikDec::from(KuznyechikEnc::new(kref::<Kuznyechik>(k))))),
+                ("from(&enc)", &|k| Some(KuznyechikDec::from(&KuznyechikEnc::new(kref::<Kuznyechik>(k))))),
+                ("from(&enc).clone()", &|k| Some(KuznyechikDec::from(&KuznyechikEnc::new(kref::<Kuznyechik>(k))).clone())),
             ],
             &keys,
         );
